@@ -203,6 +203,86 @@ namespace
       }
       te.finish(); se.finish();
     }
+    // ---- the edge (facet) evaluator of the isoparametric trafo: every edge in its own (global) orientation
+    {
+      typedef typename IsoTrafo::template Evaluator<Shape::Hypercube<1>, double>::Type EdgeEval;
+      static constexpr TrafoTags etags = TrafoTags::dom_point | TrafoTags::img_point | TrafoTags::jac_mat | TrafoTags::jac_det | TrafoTags::hess_ten;
+      typename EdgeEval::template ConfigTraits<etags>::EvalDataType ed;
+      EdgeEval ee(trafo);
+      for(Index e = 0; e < Index(md.edges.size()); ++e)
+      {
+        std::array<double, 2> pa = md.vtx[md.edges[e][0]], pb = md.vtx[md.edges[e][1]];
+        const bool curved = on_circle(pa) && on_circle(pb);
+        std::vector<std::array<LD, 2>> nd;
+        for(int i = 0; i <= n; ++i)
+        {
+          LD al = LD(i) / LD(n);
+          std::array<LD, 2> p{{LD(pa[0]) + al * (LD(pb[0]) - LD(pa[0])), LD(pa[1]) + al * (LD(pb[1]) - LD(pa[1]))}};
+          if(curved && i > 0 && i < n) p = project(p);
+          nd.push_back(p);
+        }
+        ee.prepare(e);
+        std::vector<LD> val, der;
+        for(int i = 0; i <= 8; ++i)
+        {
+          LD t = LD(-1) + LD(i) / LD(4);
+          typename EdgeEval::DomainPointType p; p[0] = double(t);
+          ee(ed, p);
+          lagrange(n, t, val, der);
+          LD x[2] = {0, 0}, dx[2] = {0, 0};
+          for(int q = 0; q <= n; ++q) for(int j = 0; j < 2; ++j) { x[j] += val[(size_t)q] * nd[(size_t)q][(size_t)j]; dx[j] += der[(size_t)q] * nd[(size_t)q][(size_t)j]; }
+          c.count("iso_edge_points");
+          bool ok = true;
+          for(int j = 0; j < 2; ++j) ok = ok && std::fabs(LD(ed.img_point[j]) - x[j]) <= LD(1e-12) * 8 && std::fabs(LD(ed.jac_mat[j][0]) - dx[j]) <= LD(1e-11) * 8;
+          ok = ok && std::fabs(LD(ed.jac_det) - std::sqrt(dx[0] * dx[0] + dx[1] * dx[1])) <= LD(1e-11) * 8;
+          if(!ok) { c.fail(kp + " edge-evaluator", "edge " + std::to_string(e) + " t=" + std::to_string(double(t)) + ": map/jacobian of the edge evaluator differ from the Lagrange interpolant of the (projected) edge nodes"); ee.finish(); return; }
+        }
+        ee.finish();
+      }
+    }
+  }
+
+  /// hexahedra without any chart: the isoparametric trafo of every degree is the trilinear standard trafo
+  template<int degree_>
+  void check_hexa_nochart(verif::Ctx& c, int gA, int gB, int geo)
+  {
+    typedef Shape::Hypercube<3> HS;
+    typedef Geometry::ConformalMesh<HS, 3, double> HMesh;
+    typedef Trafo::Isoparam::Mapping<HMesh, degree_> IsoTrafo;
+    typedef Trafo::Standard::Mapping<HMesh> StdTrafo;
+    typedef typename IsoTrafo::template Evaluator<HS, double>::Type IsoEval;
+    typedef typename StdTrafo::template Evaluator<HS, double>::Type StdEval;
+    static constexpr TrafoTags tags = TrafoTags::dom_point | TrafoTags::img_point | TrafoTags::jac_mat | TrafoTags::jac_inv | TrafoTags::jac_det | TrafoTags::hess_ten;
+    MeshData<HS> md = make_two_cell<HS>(gA, gB, geo, Twist());
+    DataFactory<HS> fac(md);
+    HMesh mesh(fac);
+    IsoTrafo it(mesh); StdTrafo st(mesh);
+    IsoEval ie(it); StdEval se(st);
+    typename IsoEval::template ConfigTraits<tags>::EvalDataType id;
+    typename StdEval::template ConfigTraits<tags>::EvalDataType sd;
+    const std::string kp = "isoparam" + std::to_string(degree_) + "/hexa";
+    for(Index k = 0; k < 2; ++k)
+    {
+      ie.prepare(k); se.prepare(k);
+      for(auto& xi : ref_lattice<HS>(4))
+      {
+        typename IsoEval::DomainPointType p; for(int j = 0; j < 3; ++j) p[j] = double(xi[(size_t)j]);
+        ie(id, p); se(sd, p);
+        c.count("iso_hexa_points");
+        bool ok = std::fabs(id.jac_det - sd.jac_det) <= 1e-11 * (1 + std::fabs(sd.jac_det));
+        for(int i = 0; i < 3; ++i)
+        {
+          ok = ok && std::fabs(id.img_point[i] - sd.img_point[i]) <= 1e-12 * 8;
+          for(int j = 0; j < 3; ++j)
+          {
+            ok = ok && std::fabs(id.jac_mat[i][j] - sd.jac_mat[i][j]) <= 1e-11 * 8 && std::fabs(id.jac_inv[i][j] - sd.jac_inv[i][j]) <= 1e-10 * 8;
+            for(int l = 0; l < 3; ++l) ok = ok && std::fabs(id.hess_ten(i, j, l) - sd.hess_ten(i, j, l)) <= 1e-10 * 8;
+          }
+        }
+        if(!ok) { c.fail(kp + " equals-standard-without-charts", "cell " + std::to_string(k) + ": isoparametric trafo without charts differs from the trilinear standard trafo"); ie.finish(); se.finish(); return; }
+      }
+      ie.finish(); se.finish();
+    }
   }
 }
 
@@ -218,7 +298,7 @@ int main(int argc, char** argv)
   spec.bounds_quick = "1-cell: 8 numberings x 2 edge orientations; 2-cell: 64 pairs x 2";
   spec.bounds_thorough = "same (the space is small)";
   spec.assumptions = {
-    "only quadrilaterals and a circle chart; the hexahedral and 1D isoparametric evaluators and InverseMapping (which supports the standard trafo only) are not covered",
+    "quadrilaterals with a circle chart (cell and edge evaluators); hexahedra only without charts (must equal the standard trafo); volume() of the isoparametric evaluators is an approximation by design (2x2 Gauss / arc length of a parabola) and is not compared; InverseMapping supports the standard trafo only",
     "the map is the tensor product Lagrange interpolant of its nodes; interior nodes are not checked individually (only through the derivative/area identities)"};
   return verif::run(spec, argc, argv, [&](verif::Ctx& c) {
     for(int ncells = 1; ncells <= 2; ++ncells)
@@ -246,5 +326,18 @@ int main(int argc, char** argv)
             c.outcome("cells=" + std::to_string(ncells));
             c.count("cases");
           }
+    // hexahedra without charts
+    for(int geo : {1, 3})
+      for(int g = 0; g < 48; g += 5)
+      {
+        if(!c.want()) continue;
+        c.desc([&]{ return "iso hexa without charts gA=" + std::to_string(g) + " gB=" + std::to_string((7 * g + 3) % 48) + " geo=" + geo_name(geo); });
+        check_hexa_nochart<1>(c, g, (7 * g + 3) % 48, geo);
+        check_hexa_nochart<2>(c, g, (7 * g + 3) % 48, geo);
+        check_hexa_nochart<3>(c, g, (7 * g + 3) % 48, geo);
+        c.nontrivial(verif::Hash().pod(g).pod(geo).get());
+        c.outcome("hexa");
+        c.count("cases_hexa");
+      }
   });
 }
